@@ -53,7 +53,7 @@ class C06(Check):
     RULE += PRELUDE_RULE
     ASSUMPTIONS = ['predicate values are compared with != only (no hashing)']
     ANCHORS = ['rxsci/data/split.py', 'rxsci/operators/multiplex.py']
-    REQUIRED_TAGS = ['top', 'group', 'roll', 'roll_eq', 'split', 'pred=divt', 'pred=divs', 'pred=divbig', 'pred=divhuge', 'pred=divnp', 'pred=divbool', 'pred=divnone', 'pred=divnan', 'pred=divobj', 'pred=divobjt', 'pred=divtag', 'single-run', 'runs-of-1', 'empty-key'] + ['operator-object-used-in-two-pipelines'] + PRELUDE_TAGS + ['prelude:overlap']
+    REQUIRED_TAGS = ['consumer-runs-a-pipeline-built-with-the-same-operator-object', 'top', 'group', 'roll', 'roll_eq', 'split', 'pred=divt', 'pred=divs', 'pred=divbig', 'pred=divhuge', 'pred=divnp', 'pred=divbool', 'pred=divnone', 'pred=divnan', 'pred=divobj', 'pred=divobjt', 'pred=divtag', 'single-run', 'runs-of-1', 'empty-key'] + ['operator-object-used-in-two-pipelines'] + ['history-fed-more-than-the-judged-stream'] + PRELUDE_TAGS + ['prelude:overlap']
     REQUIRED_OBSERVED = ['child_lifetimes_checked', 'parent_lifetimes_checked']
 
     def generate(self, rng, tier, shard, nshards):
@@ -123,6 +123,9 @@ class C06(Check):
             if windows.check_partition(out, ob, p, exp, 'split'):
                 return out
         out.observed['events_logged'] += len(ob.log)
+        if case['parent'] == 'top' and len(items) <= 150 and not out.failures:
+            out.tags.append('consumer-runs-a-pipeline-built-with-the-same-operator-object')
+            windows.nested_consumer(['split', case['pred'], None], items, items[:(len(items) * 2) // 3 + 1], out, 'split')
         return out
 
     box_done = 0
